@@ -560,8 +560,15 @@ def r11_7(run):
     T = run.project.cls("mygrad.tensor_base.Tensor")
     engine = {"_op", "_in_place_op", "_replay_op"}
     n = 0
+    # entry points: public methods, properties and operator dunders -- the private helpers of the in-place machinery (parts of
+    # _in_place_op moved into methods of their own) pass placeholders along and are judged with their caller
+    helpers = run.project.classes["mygrad.tensor_base.Tensor"].methods
+    callers_ip = {c.func.attr for q_ in ("_in_place_op", "shape.setter") if q_ in helpers for c in own_nodes(helpers[q_].node)
+                  if isinstance(c, ast.Call) and isinstance(c.func, ast.Attribute) and norm(c.func.value) in ("self", "type(self)", "Tensor")}
     for name, m in sorted(T.methods.items()):
         if name in engine:
+            continue
+        if name.startswith("_") and not (name.startswith("__") and name.endswith("__")) and (name in callers_ip or m.qualname in getattr(run.project, "absorbed", set())):
             continue
         calls = [c for c in own_nodes(m.node) if isinstance(c, ast.Call) and isinstance(c.func, ast.Attribute) and c.func.attr == "_op"]
         if not calls:
